@@ -14,20 +14,23 @@ def tiers(qchecks, qshards, tchecks, tshards=12, qtimeout=600, ttimeout=3000, **
     return dict(quick=q, thorough=t)
 
 CONF = {
-    "C01": tiers(2500, 4, 60000, 12),
+    "C01": tiers(2500, 4, 60000, 12, t_stages=["fuzz"], t_fuzztime="90s"),
     "C02": tiers(2500, 4, 40000, 12),
-    "C03": tiers(2000, 4, 30000, 12),
+    "C03": tiers(2000, 4, 30000, 12, t_stages=["fuzz"], t_fuzztime="90s"),
     "C04": tiers(3000, 4, 40000, 12),
-    "C07": tiers(2500, 4, 40000, 12),
+    "C07": tiers(2500, 4, 40000, 12, t_stages=["fuzz"], t_fuzztime="90s"),
     "C16": tiers(1500, 4, 20000, 12),
     "C17": tiers(20000, 2, 300000, 12),
     "C18": tiers(15000, 2, 200000, 12),
-    "C19": tiers(15000, 2, 300000, 12),
+    "C19": tiers(15000, 2, 300000, 12, t_stages=["fuzz"], t_fuzztime="120s"),
     "C08": tiers(4000, 4, 50000, 12),
     "C05": dict(quick=dict(checks=0, shards=0, stages=["c05"], staged_replay=True, batches=1, defs=40, inputs=150, timeout=1200, min_evaluations=100),
                 thorough=dict(checks=0, shards=0, stages=["c05"], staged_replay=True, batches=8, defs=120, inputs=300, timeout=3000, min_evaluations=100)),
     "C14": dict(quick=dict(checks=0, shards=0, stages=["c14"], staged_replay=True, batches=1, grammars=200, timeout=1200, min_evaluations=50),
                 thorough=dict(checks=0, shards=0, stages=["c14"], staged_replay=True, batches=10, grammars=400, timeout=3000, min_evaluations=50)),
+    "C06": tiers(3000, 4, 40000, 12, qtimeout=900),
+    "C15": tiers(1500, 4, 20000, 12),
+    "C09": dict(race=True, quick=dict(checks=100, shards=4, timeout=900), thorough=dict(checks=1500, shards=8, timeout=3000)),
     "C10": tiers(2500, 4, 40000, 12),
     "C11": tiers(2500, 4, 40000, 12),
     "C13": tiers(1500, 4, 25000, 12),
@@ -88,12 +91,52 @@ META = {
               "quick, ~1000 x 300 thorough).",
         note=LEX_NOTE + " Also trusts the ~150-line possessive matcher over regexp/syntax trees (lexgen/possessive.go) for the tolerance decision, "
              "and the Go toolchain for 'compiles'. The generated lexers are additionally checked with C04's validator and C07's oracle."),
+    "C06": dict(
+        engine="props", design_ref="3/C06",
+        technique="robustness fuzzing with validity-predicate oracle: mutated sample inputs of 18 ported example grammars + generated grammars (rapid), watchdog, crash journal, Trace-depth metamorphic relation",
+        level="Every Parse/ParseString/ParseBytes call on mutated, truncated, nested, very long flat, non-UTF-8 and empty inputs must return without "
+              "panic or hang with (AST, nil) or a well-formed located participle.Error (filename, offset in bounds, line/column recomputed from the "
+              "offset, Error() text, UnexpectedTokenError naming the token Parser.Lex shows there, nil AST iff lexing failed). Recursion depth read "
+              "from Trace must not grow with the length of flat inputs and must be linear in the nesting; 20k-120k item inputs and long runs of "
+              "dropped tokens run under a 64 MiB stack limit with a crash journal. Exploration.",
+        note="The example grammars are hand-ported copies (harness/fixtures) of /repo/_examples; panics raised by their own Parseable code and foreign "
+             "errors are not judged. One known finding (F19, exponential backtracking of the sql example) is excluded by construction; generated "
+             "grammars are gated by the reference parser's step budget for the same reason. 'Hang' = a call exceeding the 20 s watchdog."),
+    "C09": dict(
+        engine="props", design_ref="3/C09",
+        technique="generated concurrent workloads compared with fresh-instance results, run under the Go race detector (rapid)",
+        level="Workloads of 2-16 goroutines (after a sequential history) call ParseString/ParseBytes/Parse/Lex/String/LexString on shared generated "
+              "parsers, back-reference definitions, a two-mapper parser, the package-level ebnf parser and ported example parsers; every result, "
+              "compared after all goroutines finished, must deep-equal the result of the same call on a fresh instance, and the race detector must "
+              "stay silent. Exploration of workloads; interleavings are whatever the Go scheduler produces.",
+        note="The harness does not own the scheduler: this is evidence, not coverage, of interleavings; the race detector only sees conflicting accesses "
+             "that actually occur. Objects that cannot be re-created (package-level ebnf parser, fixtures) are compared with a baseline taken before "
+             "any other use. Generated lexers are not part of the workloads."),
     "C07": dict(
         engine="lexgen", design_ref="3/C07",
         technique="property test: generated hostile rule sets/inputs/call histories with a no-panic, progress and sticky-EOF oracle + watchdog (rapid)",
         level="Rule sets in which Pop/Return are reachable in the initial state, groups may not participate, back-references may name missing groups "
               "x hostile inputs x extra Next calls after EOF/error; each call runs under a recover and a 20 s watchdog. Exploration.",
         note=LEX_NOTE + " 'Terminates' is judged with a 20 s per-call watchdog (typical call: microseconds)."),
+    "C14": dict(
+        engine="srcgen", design_ref="3/C14",
+        technique="compile-stage property test: generated grammars emitted as Go source with named types; multiset-of-items and round-trip oracles over Parser.String()",
+        level="Batches of 200-400 generated grammars (every operator, unions, direct and union-mediated recursion, typed and escaped literals, embedded "
+              "structs) are compiled as named Go types; Parser.String() must not panic, must parse with the ebnf package, list the root first, define "
+              "every reachable production exactly once and nothing else, contain per production exactly the literals / token references / production "
+              "references / operators computed independently from the IR, and survive ebnf print->parse. A second parser for the same root type with "
+              "other union members is checked in the same process. Exploration.",
+        note=GRAM_NOTE + " Anonymous struct productions are outside the statement ('named productions') and are not generated; grouping is compared as "
+             "a multiset of items per production, not as an exact tree (the statement asks for containment and round trip)."),
+    "C15": dict(
+        engine="props", design_ref="3/C15",
+        technique="differential property test across entry points and observational options (rapid)",
+        level="For ported example parsers and generated parsers (default, stateful, mapped lexers) and valid/invalid inputs: Parse(reader) incl. one-byte "
+              "and multi-part readers, ParseString, ParseBytes, ParseFromLexer over the parser's own stream must give deeply equal ASTs and identical "
+              "error texts; Parser.Lex must equal the drained definition; Lex/LexString/LexBytes must agree; Trace must not change the result; with "
+              "AllowTrailing the caller's lexer must end at the first token the reference parser did not consume. Exploration. Generated lexers' entry "
+              "points are compared in the C05 compile stage.",
+        note=GRAM_NOTE),
     "C16": dict(
         engine="lexgen", design_ref="3/C16",
         technique="round-trip + differential property test (rapid)",
